@@ -78,7 +78,8 @@ fn main() {
                     std::process::exit(2)
                 }
             };
-            let code = util::finish(&ctx, rep, t0.elapsed().as_secs_f64());
+            let other = if checks::two_profiles(&ctx.id) { util::run_other_profile(&ctx) } else { None };
+            let code = util::finish(&ctx, rep, t0.elapsed().as_secs_f64(), other);
             std::process::exit(code)
         }
         "replay" => {
